@@ -162,7 +162,10 @@ pub fn shrink(scen: &dyn Scenario, prop: &str, class: &str, a0: Vec<u32>, b0: Ve
     let mut execs = 0u32;
     let mut a = a0;
     let mut b = b0;
-    let budget_ok = |execs: u32| execs < 2000 && t0.elapsed().as_secs() < 30;
+    // VERIF_SHRINK_S: wall-clock budget of the shrinker per violation (regression runs over many
+    // seeded changes use a small one; the verdict does not depend on it)
+    let shrink_s: u64 = std::env::var("VERIF_SHRINK_S").ok().and_then(|s| s.parse().ok()).unwrap_or(30);
+    let budget_ok = |execs: u32| execs < 2000 && t0.elapsed().as_secs() < shrink_s;
     let mut try_ab = |na: &Vec<u32>, nb: &Vec<u32>, execs: &mut u32| -> Option<(Vec<u32>, Vec<u32>)> {
         *execs += 1;
         fails_same(scen, prop, class, na, nb).map(|o| (o.tape_a, o.tape_b))
